@@ -453,7 +453,14 @@ def upstream_traces(run_regex):
     if run_regex:
         cmd += ["-run", run_regex]
     cmd += ["./blockstore", "./storage/..."]
-    p = subprocess.run(cmd, cwd=os.path.join(vlib.REPO, "v2"), env=env, stdout=subprocess.PIPE, stderr=subprocess.STDOUT, text=True, timeout=3000)
+    # the repository's TestBlockstore lists its keys under a one-second deadline: on a busy machine (recorder on,
+    # other checks running) it can miss it, so a failing run is repeated before the traces are given up
+    for attempt in range(3):
+        if os.path.exists(tr):
+            os.remove(tr)
+        p = subprocess.run(cmd, cwd=os.path.join(vlib.REPO, "v2"), env=env, stdout=subprocess.PIPE, stderr=subprocess.STDOUT, text=True, timeout=3000)
+        if p.returncode == 0 and os.path.exists(tr):
+            break
     if p.returncode != 0 or not os.path.exists(tr):
         raise Inconclusive("the repository's tests (tag verif) did not pass or recorded nothing:\n" + p.stdout[-1500:])
     locks, proto = tr + ".locks", tr + ".proto"
